@@ -261,6 +261,10 @@ pub enum Op {
     },
     /// set every mtime in the tree to the sentinel
     Sentinel,
+    /// remember the current tree content
+    Checkpoint,
+    /// restore the tree content remembered by the last Checkpoint (new inodes), then Sentinel
+    Rollback,
     /// replace the tree by the crash image of the previous run taken at scheduler step `step`;
     /// files written by the action at that step are torn according to `torn` (seeded)
     CrashImage { step: usize, torn: u64 },
